@@ -82,7 +82,7 @@ def generate(rng):
     ops = []
     order = ["d0", "d1"] + (["d2"] if two else [])
     for _ in range(rng.randint(2, 8)):
-        ops.append({"op": "simulate", "target": rng.choice(order), "n_paths": rng.choice([1, 2, 3]), "torch_seed": rng.seed31(),
+        ops.append({"op": "simulate", "target": rng.choice(order), "n_paths": rng.npaths([1, 2, 3]), "torch_seed": rng.seed31(),
                     "init": rng.chance(0.2)})
     world = {"primaries": prims, "derivatives": derivs, "models": [], "criteria": [], "hedgers": []}
     return {"profile": "c13", "env": {"default_dtype": "float32"}, "world": world, "two_asset": two, "ops": ops}
